@@ -3,7 +3,7 @@
 From Coq Require Import List NArith ZArith Bool.
 From Coq Require Import String.
 Import ListNotations.
-From GP Require Import Generated Model.Handshake Model.Stderr Model.Env Model.MuxBroker Model.GrpcMux Model.Serve.
+From GP Require Import Generated Model.Handshake Model.Stderr Model.Env Model.MuxBroker Model.GrpcMux Model.Serve Model.Kill.
 
 Definition gen_hs_params : hs_params :=
   {| hp_core := core_protocol_version;
@@ -52,3 +52,9 @@ Definition gen_cmux_params : GrpcMux.cparams :=
 
 Definition gen_sv_params : Serve.sv_params :=
   {| Serve.svp_core := core_protocol_version; Serve.svp_fields := handshake_format_fields; Serve.svp_mux_key := env_multiplex_grpc |}.
+
+(* yamux defaults: keep-alive every 30 s, connection write timeout 10 s *)
+Definition gen_kill_params : Kill.kparams :=
+  {| Kill.kp_grace := match kill_timers with g :: _ => g | [] => 0%Z end;
+     Kill.kp_rpc_deadline := grpc_shutdown_deadline;
+     Kill.kp_keepalive := 40%Z |}.
